@@ -2,6 +2,7 @@ SPECIFICATION Spec
 CONSTANTS
   Nodes = {1, 2}
   MaxEvents = 12
+  WithReload = FALSE
   Stricts = {TRUE, FALSE}
   Excl = {0, 1, 2}
   Fams = {"4"}
